@@ -786,8 +786,7 @@ class Interp:
         r = home.repo()
         if m is None or r is None or e.id in self.externals:
             return _NOHOME
-        fn_ = home.func_of(e)
-        if fn_ is not None:
+        for fn_ in home.enclosing_functions(e):
             # a parameter of the function whose body is interpreted, left out by the scenario: its default
             dflt_ = dict(A.param_defaults(fn_))
             dflt_.update({a.arg: d for a, d in zip(fn_.args.kwonlyargs, fn_.args.kw_defaults) if d is not None})
